@@ -9,10 +9,12 @@ COMMON_NOTE = ("Trusted: TLC and the CommunityModules fold overrides; the BigNat
 
 TEXT = {
     "C01": dict(
-        level="TLC validates, event by event, traces of the real crate against the exact-arithmetic operators of the TLA+ "
-              "specification (align-then-add on decimal digit sequences, convolution product): every one of the 386 "
+        level="MC_Arith (TLC, exhaustive small scope) checks the exact-arithmetic operators of the specification against TLC's "
+              "native integers, the ring laws and the scale bookkeeping, and prints small operand pairs that the harness runs "
+              "through all 386 spellings. TLC validates, event by event, traces of the real crate against those operators "
+              "(align-then-add on decimal digit sequences, convolution product): every one of the 386 "
               "overloads of + - * (owned/borrowed/BigDecimalRef/BigInt/&BigInt/10 primitive widths by value and by "
-              "reference/compound assignment) meets every scale-gap class (0..45, 585..595, multiples of 19 and 16 to 10^4), "
+              "reference/compound assignment) meets every scale-gap class (0..45, 254..277, 511..532, 585..595, multiples of 19 and 16 to 10^4), "
               "operands to 700 (quick) / 3000 (thorough) digits, zeros carrying a scale, ones written 1.00, equal values in "
               "different representations, primitive MIN/MAX/0/+-1/+-2; plus double/half/square/cube/neg/abs/sum. "
               "Model checking level because the verdict is computed by the model checker from the specification, and "
@@ -21,13 +23,17 @@ TEXT = {
         technique="TLA+ trace validation with TLC (impl -> spec) + TLC-generated behaviours replayed on the crate (spec -> impl)",
         ref="DESIGN.md section 7 C01"),
     "C02": dict(
-        level="MC_Cmp (TLC, exhaustive: all pairs of decimals with |unscaled| <= 25/60 at scales -2..2, all triples of a "
+        level="MC_EqWords models the allocation-free word-by-word equality loop as a state machine with scaled-down machine words: the "
+              "repaired design is right for all operands, the shipped design (wrapping carry addition) is refuted by TLC (thorough "
+              "tier, expected violation). MC_Cmp (TLC, exhaustive: all pairs of decimals with |unscaled| <= 25/60 at scales -2..2, all triples of a "
               "smaller pool) shows three independent definitions of the order agree (aligned digits, adjusted-exponent-first "
               "on ZInt scales, sign of the exact difference), that == is cmp = 0, antisymmetry, transitivity, totality. Every "
               "small pair is printed by TLC and replayed through all 18 comparison spellings (==, !=, <, <=, >, >=, cmp, "
               "partial_cmp on BigDecimal, &BigDecimal, BigDecimalRef) plus max/min; the driver adds value-equal pairs with scale "
               "gaps 1..19 / >= 20, one-ulp neighbours, operands whose 32-bit words sit at floor(2^64/10^k)+-1 (k = 1..19, word "
-              "positions 0..3), pairs differing in one 32-bit word or by a dropped top word, u32/u64/u128 fast-path limits, scale "
+              "positions 0..3), pairs differing in one 32-bit word or by a dropped top word, a non-zero digit right below the other "
+              "operand's last place, every scale difference 20..700/1100 with power-of-two-like coefficients (bit-length prefilter), "
+              "u32/u64/u128 fast-path limits, scale "
               "differences around and beyond 2^63, up to 600/3000 digits, sort/max/min; all recorded with a checked "
               "(overflow-checks, debug-assertions) and a release build, and every event is validated by TLC. A panic or a "
               "profile-dependent answer is an unexplained event.",
@@ -39,14 +45,17 @@ TEXT = {
               "trailing zeros, append `-scale` zeros, zero = \"0\") maps equal values to equal strings for all small pairs. Trace "
               "validation is stateful: the specification remembers, per normal form, the digest (FNV-1a-128 of the byte stream fed "
               "to a recording Hasher, its length, and DefaultHasher's output) of the first representation seen, and every later "
-              "representation of the same value must reproduce it; HashSet cardinality = number of distinct values. Groups of "
+              "representation of the same value must reproduce it - the digest covers the byte stream AND the sequence of "
+              "Hasher::write calls; whenever the crate's own == says two decimals are equal their digests must agree (eq_hash "
+              "events on pairs with equal low words); HashSet cardinality = number of distinct values. Groups of "
               "equal values with 0..120/300 extra trailing zeros, negative scale vs written-out zeros, zero runs longer than the "
               "scale, zeros with any scale, |scale| up to 2*10^4 / 10^5.",
         note=COMMON_NOTE + " FNV-1a-128 collision-freeness on the recorded byte streams.",
         technique="TLC model checking of the hash-key mechanism + stateful TLA+ trace validation (history variable: value -> digest)",
         ref="DESIGN.md section 7 C03"),
     "C04": dict(
-        level="TLC validates every rendering recorded from the crate: the output must be a numeral of the TLA+ grammar, the "
+        level="MC_Fmt (TLC, exhaustive small scope, three configurations) shows mechanism-level text builders of every formatter "
+              "(spec/Fmt.tla) satisfy the declarative relation used below. TLC validates every rendering recorded from the crate: the output must be a numeral of the TLA+ grammar, the "
               "crate's own parser must read it back as the grammar's ParseValue says (so a formatter bug cannot hide behind a "
               "parser bug), and the re-parsed decimal must relate to the original as the property states per renderer: identical "
               "digits and scale for {:e}, {:E}, scientific, plain with scale >= 0 and Display outside its padded range; exactly "
@@ -95,13 +104,14 @@ TEXT = {
         technique="TLC model checking + TLC-generated exhaustive small scope replayed on the crate + TLA+ trace validation",
         ref="DESIGN.md section 7 C07"),
     "C08": dict(
-        level="The specification never divides to judge a quotient: r is accepted iff r*b = a exactly, or r has the sign of a/b, at "
+        level="TLC-printed small operand pairs are divided in every applicable spelling. The specification never divides to judge a quotient: r is accepted iff r*b = a exactly, or r has the sign of a/b, at "
               "least `precision` digits, 2*|r*b - a| <= |b|*ulp(r), a tie only when |r*b| > |a| (away from zero), and - checked by "
               "one long division only in the single corner where it can matter - the true quotient does not terminate within the "
               "precision. A zero divisor admits exactly one outcome, a panic, in all 112 division spellings (every primitive width "
               "by value and by reference on either side, /=, float numerators). A history variable makes all spellings of the same "
               "division return the same value. MC_Rem (TLC, exhaustive small scope) shows the crate's digit-loop mechanism "
               "(shift the numerator, one digit per iteration, final half-up step) satisfies this relation for precisions 1..3. "
+              "Division by a primitive +-2 must be the exact half in every spelling; float operands stand for their exact decimal. "
               "Driver: quotients built to terminate, tie (..5 at digit P+1, generated inside the digit loop) or nearly tie around "
               "the P-th digit, divisors 2^i 5^j, operands to 500/2000 digits, |a| << |b| and >> |b|, equal unscaled integers.",
         note=COMMON_NOTE + " Float DIVISORS and `1 / x` (the reciprocal, C12) are judged by their own relations.",
@@ -111,14 +121,16 @@ TEXT = {
         level="MC_Rem (TLC, exhaustive small scope with scale gaps up to 130) shows the remainder operator of the specification "
               "satisfies the truncated-division identity with an integer quotient, |r| < |b|, sign(r) in {0, sign(a)}, "
               "independence of sign(b), and that the formulation used for 10^4-digit scale gaps (split dividend / square-and-"
-              "multiply power of ten) agrees with the naive one. All five spellings (four ownership forms and %=) are run on the "
+              "multiply power of ten) agrees with the naive one; every small pair is printed and replayed. All five spellings (four ownership forms and %=) are run on the "
               "same operands - each re-implements the alignment - for every gap 0..45, gaps around 256, 512, 590, 1000, 4096, "
               "10^4 in both directions, operands to 400/2000 digits, exact multiples, equal operands; zero divisors must panic.",
         note=COMMON_NOTE,
         technique="TLC model checking of the remainder identity (MC_Rem) + TLA+ trace validation (functional)",
         ref="DESIGN.md section 7 C09"),
     "C10": dict(
-        level="Relational specification, no square root in the oracle: from x alone the leading exponent E = floor(adj(x)/2) of the "
+        level="MC_Roots (TLC, exhaustive small scope) shows the relation below accepts exactly one grid point per (x, p, mode) - the one "
+              "an independent native-integer mechanism (integer root + sticky flag) computes - and prints every small x, which the "
+              "harness runs at p = 1..6 under all modes. Relational specification, no square root in the oracle: from x alone the leading exponent E = floor(adj(x)/2) of the "
               "root and the grid unit u = 10^(E-p+1) are fixed; the result r is accepted iff it lies on the grid, f in {r, r-u} "
               "brackets the root (f^2 <= x < (f+u)^2) and r is the neighbour the mode selects, using exactness f^2 = x and the "
               "comparison of (2f+u)^2 with 4x for the tie rules. TLC validates every recorded call: perfect squares, perfect "
@@ -130,14 +142,15 @@ TEXT = {
         technique="relational TLA+ trace validation with TLC (squares and comparisons only)",
         ref="DESIGN.md section 7 C10"),
     "C11": dict(
-        level="Same relational scheme with cubes (E = floor(adj/3), (2f+u)^3 vs 8x), Floor/Ceiling interpreted on the signed value so "
+        level="MC_Roots as for C10 (both signs). Same relational scheme with cubes (E = floor(adj/3), (2f+u)^3 vs 8x), Floor/Ceiling interpreted on the signed value so "
               "that the mirror law cbrt(-x, m) = -cbrt(x, mirror(m)) is part of the relation; all residues of the scale mod 3, "
               "perfect cubes +-1 far unit, midpoint cubes, inputs longer than 3(p+4) digits, both signs, p in 1..150/160.",
         note=COMMON_NOTE,
         technique="relational TLA+ trace validation with TLC (cubes and comparisons only)",
         ref="DESIGN.md section 7 C11"),
     "C12": dict(
-        level="Relation: sign(r) = sign(x), |x*r - 1| < |x|*u with u one unit of the p-th digit of 1/x, and x*r = 1 exactly whenever "
+        level="MC_Roots checks the relation against native division (floor and ceiling acceptable, only the exact value when 1/x "
+              "terminates) and prints small x for replay at p = 1..6. Relation: sign(r) = sign(x), |x*r - 1| < |x|*u with u one unit of the p-th digit of 1/x, and x*r = 1 exactly whenever "
               "1/x terminates within p digits (divisibility of a power of ten, decided by one division only when x is short "
               "enough to divide it); a history variable enforces inverse(-x, mirror(m)) = -inverse(x, m); a watchdog timeout is an "
               "unexplained event (termination). Driver: all 2^i 5^j (i <= 24/60, j <= 12/30) at p = exact length + {-1,0,1,2,3,6} "
@@ -148,7 +161,7 @@ TEXT = {
         technique="relational, stateful TLA+ trace validation with TLC; named deviation for the recorded known finding",
         ref="DESIGN.md section 7 C12"),
     "C13": dict(
-        level="The specification computes, in TLA+ fixed-point decimal arithmetic with directed rounding, a rigorous enclosure [L, U] "
+        level="MC_Exp checks the enclosure itself (L <= U, width, nesting, 50 known digits of e, acceptance / rejection). The specification computes, in TLA+ fixed-point decimal arithmetic with directed rounding, a rigorous enclosure [L, U] "
               "of e^|x| (exact argument reduction by 2^m = 10^m / 5^m, Taylor sum with explicit tail bound, m interval squarings) "
               "that is > 25 digits tighter than an ulp; the crate's result r is accepted iff r > 0 and [r-ulp, r+ulp] meets the "
               "enclosure (for x < 0 tested by multiplication against 1/U, 1/L); exp(0) = 1 exactly. Each evaluation costs TLC "
@@ -159,21 +172,22 @@ TEXT = {
         technique="TLA+ trace validation with TLC against an interval enclosure computed by the specification",
         ref="DESIGN.md section 7 C13"),
     "C14": dict(
-        level="The specification decodes IEEE-754 bit patterns (sign / exponent field / mantissa split by long division, subnormals, "
+        level="MC_Floats (TLC, exhaustive) checks the decoder against the native formula on all 65536 binary16 patterns. The specification decodes IEEE-754 bit patterns (sign / exponent field / mantissa split by long division, subnormals, "
               "2^k and 5^k from constant tables) into the exact decimal they denote. float -> decimal must be that value exactly "
               "(NaN, infinities => error); float -> decimal -> to_f64 must return the identical bit pattern (-0.0 => +0.0; a "
               "binary32 comes back as the same value, checked on the fields); to_f64 of an arbitrary decimal must have the right "
               "sign, relative error <= 2^-48 in the normal range, infinity only beyond or within that tolerance of f64::MAX, and "
               "at most one subnormal step of error below MIN_POSITIVE. Inputs: every binary32 exponent field x boundary and "
               "random mantissas x both signs, 127 (quick) / all 2048 (thorough) binary64 exponent fields likewise, the lowest 70 "
-              "subnormals, the neighbourhoods of MIN_POSITIVE and MAX, random bit patterns, decimals of 1..400 digits with "
+              "subnormals, the neighbourhoods of MIN_POSITIVE and MAX, few-bit mantissas (short decimal expansions) over 115 binades, "
+              "the binades where the integer leaves u64 / u128, random bit patterns, decimals of 1..400 digits with "
               "exponents -400..400, exact halfway cases between adjacent floats and their far-digit neighbours. The exhaustive "
               "2^32 binary32 sweep of the property's quantifier is NOT reached (stratified sample instead).",
         note=COMMON_NOTE,
         technique="TLA+ trace validation with TLC against an exact IEEE-754 decoder in the specification",
         ref="DESIGN.md section 7 C14"),
     "C15": dict(
-        level="The specification truncates toward zero by digit shift, compares with the type's range as a big integer (ZInt), and "
+        level="MC_Floats.ConvertRight checks the conversion verdicts against native truncation on 8-bit types. The specification truncates toward zero by digit shift, compares with the type's range as a big integer (ZInt), and "
               "lets a negative decimal never convert to an unsigned type; is_integer <=> the low `scale` digits are zero; "
               "From<primitive>/From<BigInt>/FromPrimitive are exact with scale 0. TLC validates to_i64/to_i128/to_u64/to_u128/"
               "to_bigint on values and references for every value within +-2 and +-0.5 of each MIN/MAX (also of the narrower "
@@ -208,7 +222,10 @@ TEXT = {
         technique="TLA+ trace validation with TLC (numeral and JSON-number grammars, ParseValue, Display relation of the specification)",
         ref="DESIGN.md section 7 C17"),
     "C18": dict(
-        level="TLC validates traces of constructors, accessors, digits()/count_digits(), normalized(), with_scale / "
+        level="MC_BigNat (digit-sequence arithmetic = native arithmetic), MC_Mech (the three-algorithm power of ten, digit counting from "
+              "a bit-length estimate, get_rounding_term, lazy trailing-zero flag: mechanism models checked exhaustively on bounded "
+              "scopes) and MC_Arith.ReprLaws (normal forms, exact rescaling) are model-checked; small decimals are printed and replayed "
+              "through every accessor. TLC validates traces of constructors, accessors, digits()/count_digits(), normalized(), with_scale / "
               "to_owned_with_scale / with_prec extension against the representation-level operators of the TLA+ "
               "specification: every 10^k, 10^k-1, 10^k+1 for k in 0..700 (quick) / 0..5000 (thorough), random decimals with "
               "up to 5000 trailing zeros, scale extensions crossing the three power-of-ten algorithms, zeros with any scale "
